@@ -1,5 +1,602 @@
 package main
 
-const attContract = `access(all) contract T {}`
+// att: executes behaviours of spec/system/Attachments.tla on the real runtime (C49).
+//
+// Same scheme as replay.go: one Cadence transaction per model transaction, the description of
+// every slot, struct variable and storage path is logged after every step and compared with the
+// `st` the specification computed; per-operation results (access, forEachAttachment, entitled
+// access) are logged and compared; destroy events of attachments (type, tag, `base.id` at the
+// time of destruction) and bases are compared as multisets per committed transaction; after a
+// commit a fresh script re-reads storage.
+//
+// Two variants of the contract: "plain" (the base type declares no entitlements) and "ent" (the
+// base type declares an entitled member, attachment A has an entitled function that is called
+// through an authorized reference).
 
-func attMain(args []string) {}
+import (
+	"encoding/json"
+	"fmt"
+	"runtime"
+	"sort"
+	"strings"
+	"sync/atomic"
+
+	"github.com/onflow/cadence"
+	"github.com/onflow/cadence/common"
+
+	"verifharness/host"
+	"verifharness/util"
+)
+
+const attContractTmpl = `
+access(all) contract T {
+  access(all) entitlement E
+  access(all) resource R {
+    access(all) let id: Int
+    access(all) event ResourceDestroyed(id: Int = self.id, uuid: UInt64 = self.uuid)
+    init(_ i: Int) { self.id = i }
+    ENTMEMBER
+  }
+  access(all) attachment A for R {
+    access(all) let tag: Int
+    access(all) event ResourceDestroyed(tag: Int = self.tag, bid: Int = base.id)
+    init(_ t: Int) { self.tag = t }
+    access(all) fun info(): String { return "A:".concat(self.tag.toString()).concat(":").concat(base.id.toString()) }
+    access(all) fun baseUuid(): UInt64 { return base.uuid }
+    SECACCESS fun sec(): Int { return self.tag * 1000 + base.id }
+  }
+  access(all) attachment B for R {
+    access(all) let tag: Int
+    access(all) event ResourceDestroyed(tag: Int = self.tag, bid: Int = base.id)
+    init(_ t: Int) { self.tag = t }
+    access(all) fun info(): String { return "B:".concat(self.tag.toString()).concat(":").concat(base.id.toString()) }
+    access(all) fun baseUuid(): UInt64 { return base.uuid }
+  }
+  access(all) struct S {
+    access(all) var x: Int
+    init(_ x: Int) { self.x = x }
+    access(all) fun setX(_ x: Int) { self.x = x }
+  }
+  access(all) attachment SA for S {
+    access(all) let tag: Int
+    init(_ t: Int) { self.tag = t }
+    access(all) fun info(): String { return "SA:".concat(self.tag.toString()).concat(":").concat(base.x.toString()) }
+  }
+  access(all) fun mk(_ i: Int): @R { return <- create R(i) }
+  access(all) fun d(_ r: &R?): String {
+    if let x = r {
+      var s = x.id.toString().concat("<")
+      if let a = x[A] { s = s.concat(a.info()).concat(a.baseUuid() == x.uuid ? "," : "!base-uuid,") }
+      if let b = x[B] { s = s.concat(b.info()).concat(b.baseUuid() == x.uuid ? "," : "!base-uuid,") }
+      return s.concat(">")
+    }
+    return "-"
+  }
+  access(all) fun first(_ a: &[R]): &R? { if a.length == 0 { return nil }; return a[0] }
+  access(all) fun accA(_ r: &R): String { if let a = r[A] { return a.info() }; return "nil" }
+  access(all) fun accB(_ r: &R): String { if let a = r[B] { return a.info() }; return "nil" }
+  access(all) fun each(_ r: &R): String {
+    var names: [String] = []
+    r.forEachAttachment(fun (att: &AnyResourceAttachment) { names.append(att.getType().identifier) })
+    var s = ""
+    for n in names { s = s.concat(n).concat(",") }
+    return s
+  }
+  access(all) fun ds(_ s: S): String {
+    var r = "S(".concat(s.x.toString()).concat(")<")
+    if let a = s[SA] { r = r.concat(a.info()) }
+    return r.concat(">")
+  }
+  access(all) fun dso(_ s: S?): String { if let x = s { return self.ds(x) }; return "-" }
+}`
+
+func attContractFor(variant string) string {
+	s := attContractTmpl
+	if variant == "ent" {
+		s = strings.ReplaceAll(s, "ENTMEMBER", "access(E) fun touch(): Int { return self.id }")
+		s = strings.ReplaceAll(s, "SECACCESS", "access(E)")
+	} else {
+		s = strings.ReplaceAll(s, "ENTMEMBER", "")
+		s = strings.ReplaceAll(s, "SECACCESS", "access(all)")
+	}
+	return s
+}
+
+var attContract = attContractFor("ent")
+
+type AEv struct {
+	Y   string `json:"y"`
+	Tag int    `json:"tag"`
+	B   int    `json:"b"`
+}
+
+type AStep struct {
+	Op  string          `json:"op"`
+	B   int             `json:"b"`
+	Y   string          `json:"y"`
+	Tag int             `json:"tag"`
+	I   int             `json:"i"`
+	J   int             `json:"j"`
+	X   int             `json:"x"`
+	Sp  Place           `json:"sp"`
+	Dp  Place           `json:"dp"`
+	Res json.RawMessage `json:"res"`
+	Ev  []AEv           `json:"ev"`
+	St  []string        `json:"st"`
+	Cst []string        `json:"cst"`
+}
+
+type ACfg struct {
+	Slots   []string `json:"slots"` // var | arr
+	Paths   int      `json:"paths"`
+	SSlots  int      `json:"sslots"`
+	Variant string   `json:"variant"` // plain | ent
+}
+
+type ABeh struct {
+	ID    int     `json:"id"`
+	Cfg   ACfg    `json:"cfg"`
+	Steps []AStep `json:"steps"`
+}
+
+type AFail struct {
+	ID      int    `json:"id"`
+	Engine  string `json:"engine"`
+	Kind    string `json:"kind"`
+	Op      string `json:"op,omitempty"`
+	Form    string `json:"form,omitempty"`
+	Variant string `json:"variant"`
+	Err     string `json:"err,omitempty"`
+	Harness bool   `json:"harness,omitempty"`
+	Step    int    `json:"step"`
+	Msg     string `json:"msg"`
+	Src     string `json:"src,omitempty"`
+	Beh     *ABeh  `json:"beh,omitempty"`
+}
+
+func (s AStep) resString() string {
+	var r string
+	if json.Unmarshal(s.Res, &r) == nil {
+		return r
+	}
+	return ""
+}
+
+type atx struct {
+	cfg ACfg
+	sb  strings.Builder
+	n   int
+}
+
+func (t *atx) tmp(p string) string { t.n++; return fmt.Sprintf("%s%d", p, t.n) }
+func (t *atx) line(f string, a ...any) {
+	t.sb.WriteString("    ")
+	fmt.Fprintf(&t.sb, f, a...)
+	t.sb.WriteString("\n")
+}
+
+func (t *atx) optRef(p Place) string {
+	if p.K == "slot" {
+		if t.cfg.Slots[p.A-1] == "arr" {
+			return fmt.Sprintf("T.first(&a%d as &[T.R])", p.A)
+		}
+		return fmt.Sprintf("(&s%d as &T.R?)", p.A)
+	}
+	return fmt.Sprintf("A1.storage.borrow<&T.R>(from: /storage/p%d)", p.B)
+}
+
+// take returns an expression of type @T.R
+func (t *atx) take(p Place) string {
+	if p.K == "slot" {
+		if t.cfg.Slots[p.A-1] == "arr" {
+			o := t.tmp("m")
+			t.line("let %s <- a%d.removeFirst()", o, p.A)
+			return o
+		}
+		o := t.tmp("o")
+		t.line("let %s <- s%d <- nil", o, p.A)
+		return o + "!"
+	}
+	o := t.tmp("o")
+	t.line("let %s <- A1.storage.load<@T.R>(from: /storage/p%d)", o, p.B)
+	return o + "!"
+}
+
+func (t *atx) put(p Place, x string) {
+	if p.K == "slot" {
+		if t.cfg.Slots[p.A-1] == "arr" {
+			t.line("a%d.append(<- %s)", p.A, x)
+		} else {
+			t.line("s%d <-! %s", p.A, x)
+		}
+		return
+	}
+	t.line("A1.storage.save(<- %s, to: /storage/p%d)", x, p.B)
+}
+
+func (t *atx) stateLog() {
+	var parts []string
+	for i := range t.cfg.Slots {
+		parts = append(parts, "T.d("+t.optRef(Place{K: "slot", A: i + 1})+")")
+	}
+	for i := 1; i <= t.cfg.SSlots; i++ {
+		parts = append(parts, fmt.Sprintf("T.ds(t%d)", i))
+	}
+	parts = append(parts, storeDescExprs(t.cfg)...)
+	e := parts[0]
+	for _, p := range parts[1:] {
+		e += ".concat(\"|\").concat(" + p + ")"
+	}
+	t.line("log(%s)", e)
+}
+
+func storeDescExprs(cfg ACfg) []string {
+	var parts []string
+	for p := 1; p <= cfg.Paths; p++ {
+		parts = append(parts, fmt.Sprintf("T.d(A1.storage.borrow<&T.R>(from: /storage/p%d))", p))
+	}
+	parts = append(parts, "T.dso(A1.storage.copy<T.S>(from: /storage/sv))")
+	return parts
+}
+
+func (t *atx) step(s AStep) {
+	switch s.Op {
+	case "create":
+		t.put(s.Dp, fmt.Sprintf("T.mk(%d)", s.B))
+	case "attach":
+		x := t.take(s.Sp)
+		t.put(s.Sp, fmt.Sprintf("attach T.%s(%d) to <- %s", s.Y, s.Tag, x))
+	case "access":
+		r := t.tmp("r")
+		t.line("let %s = %s!", r, t.optRef(s.Sp))
+		t.line("log(T.acc%s(%s))", s.Y, r)
+	case "sec":
+		r := t.tmp("r")
+		ty := "&T.R"
+		if t.cfg.Variant == "ent" {
+			ty = "auth(T.E) &T.R"
+		}
+		t.line("let %s = A1.storage.borrow<%s>(from: /storage/p%d)!", r, ty, s.Sp.B)
+		t.line("if let q%d = %s[T.A] { log(q%d.sec().toString()) } else { log(\"nil\") }", t.n, r, t.n)
+	case "foreach":
+		r := t.tmp("r")
+		t.line("let %s = %s!", r, t.optRef(s.Sp))
+		t.line("log(T.each(%s))", r)
+	case "remove":
+		x := t.take(s.Sp)
+		v := t.tmp("v")
+		t.line("let %s <- %s", v, x)
+		t.line("remove T.%s from %s", s.Y, v)
+		t.put(s.Sp, v)
+	case "move":
+		x := t.take(s.Sp)
+		t.put(s.Dp, x)
+	case "destroy":
+		x := t.take(s.Sp)
+		t.line("destroy %s", x)
+	case "sattach":
+		t.line("t%d = attach T.SA(%d) to t%d", s.I, s.Tag, s.I)
+	case "scopy":
+		t.line("t%d = t%d", s.J, s.I)
+	case "sset":
+		t.line("t%d.setX(%d)", s.I, s.X)
+	case "sremove":
+		t.line("remove T.SA from t%d", s.I)
+	case "ssave":
+		t.line("A1.storage.load<T.S>(from: /storage/sv)")
+		t.line("A1.storage.save(t%d, to: /storage/sv)", s.I)
+	case "sload":
+		t.line("t%d = A1.storage.copy<T.S>(from: /storage/sv)!", s.I)
+	case "abort":
+		t.line("panic(\"abort\")")
+	default:
+		panic("unknown op " + s.Op)
+	}
+}
+
+func renderAtt(cfg ACfg, steps []AStep) string {
+	t := &atx{cfg: cfg}
+	t.sb.WriteString("import T from 0x1\ntransaction {\n  prepare(A1: auth(Storage) &Account) {\n")
+	for i, rep := range cfg.Slots {
+		if rep == "arr" {
+			t.line("var a%d: @[T.R] <- []", i+1)
+		} else {
+			t.line("var s%d: @T.R? <- nil", i+1)
+		}
+	}
+	for i := 1; i <= cfg.SSlots; i++ {
+		t.line("var t%d = T.S(%d)", i, i)
+	}
+	for _, s := range steps {
+		if s.Op == "commit" {
+			break
+		}
+		t.step(s)
+		if s.Op != "abort" {
+			t.stateLog()
+		}
+	}
+	if len(steps) == 0 || steps[len(steps)-1].Op != "abort" {
+		for i, rep := range cfg.Slots {
+			if rep == "arr" {
+				t.line("destroy a%d", i+1)
+			} else {
+				t.line("destroy s%d", i+1)
+			}
+		}
+	}
+	t.sb.WriteString("  }\n}\n")
+	return t.sb.String()
+}
+
+func attProjection(cfg ACfg) string {
+	var sb strings.Builder
+	sb.WriteString("import T from 0x1\naccess(all) fun main(): [String] {\n")
+	fmt.Fprintf(&sb, "  let A1 = getAuthAccount<auth(Storage) &Account>(%s)\n  return [", acctAddr[0].HexWithPrefix())
+	sb.WriteString(strings.Join(storeDescExprs(cfg), ", "))
+	sb.WriteString("]\n}\n")
+	return sb.String()
+}
+
+func evKey(y string, tag, b int) string {
+	if y == "R" {
+		return fmt.Sprintf("R:%d", b)
+	}
+	return fmt.Sprintf("%s:%d:%d", y, tag, b)
+}
+
+func attEndsTx(s AStep) bool {
+	return s.Op == "commit" || s.Op == "abort" || strings.HasPrefix(s.resString(), "err:")
+}
+
+func sortedCSV(s string) string {
+	if s == "" {
+		return ""
+	}
+	parts := strings.Split(strings.TrimSuffix(s, ","), ",")
+	sort.Strings(parts)
+	return strings.Join(parts, ",")
+}
+
+func replayAtt(b *ABeh, useVM bool) *AFail {
+	eng := "interp"
+	if useVM {
+		eng = "vm"
+	}
+	w := host.NewWorld()
+	if err := w.Deploy(host.Addr(1), "T", attContractFor(b.Cfg.Variant)); err != nil {
+		return &AFail{ID: b.ID, Engine: eng, Kind: "deploy", Harness: true, Msg: err.Error()}
+	}
+	proj := attProjection(b.Cfg)
+	var cur []AStep
+	inTx := false
+	for si, s := range b.Steps {
+		if s.Op == "init" {
+			continue
+		}
+		if s.Op == "begin" {
+			cur = nil
+			inTx = true
+			continue
+		}
+		if !inTx {
+			return &AFail{ID: b.ID, Engine: eng, Kind: "shape", Harness: true, Step: si, Msg: "step outside a transaction: " + s.Op}
+		}
+		cur = append(cur, s)
+		if !attEndsTx(s) {
+			continue
+		}
+		inTx = false
+		src := renderAtt(b.Cfg, cur)
+		r := w.Tx(src, []common.Address{acctAddr[0]}, useVM)
+		form := func(st AStep) string {
+			f := st.Y
+			if st.Sp.K != "" {
+				f += "@" + st.Sp.K
+			}
+			if st.Dp.K != "" {
+				f += ">" + st.Dp.K
+			}
+			return f
+		}
+		failAt := func(st AStep, kind, msg string) *AFail {
+			return &AFail{ID: b.ID, Engine: eng, Kind: kind, Op: st.Op, Form: form(st), Variant: b.Cfg.Variant, Step: si, Msg: msg, Src: src, Beh: b}
+		}
+		fail := func(kind, msg string) *AFail { return failAt(s, kind, msg) }
+		// expected logs
+		var want []string
+		var wantSteps []AStep
+		var wantSet []bool
+		var wantKind []string
+		for _, c := range cur {
+			if c.Op == "commit" || c.Op == "abort" || strings.HasPrefix(c.resString(), "err:") {
+				break
+			}
+			switch c.Op {
+			case "access", "sec":
+				want = append(want, c.resString())
+				wantSteps = append(wantSteps, c)
+				wantSet = append(wantSet, false)
+				wantKind = append(wantKind, "result")
+			case "foreach":
+				var ys []string
+				json.Unmarshal(c.Res, &ys)
+				for i := range ys {
+					ys[i] = "A.0000000000000001.T." + ys[i]
+				}
+				sort.Strings(ys)
+				want = append(want, strings.Join(ys, ","))
+				wantSteps = append(wantSteps, c)
+				wantSet = append(wantSet, true)
+				wantKind = append(wantKind, "result")
+			}
+			want = append(want, strings.Join(c.St, "|"))
+			wantSteps = append(wantSteps, c)
+			wantSet = append(wantSet, false)
+			wantKind = append(wantKind, "state")
+		}
+		got := append([]string(nil), r.Logs...)
+		if host.IsInternal(r.Class) {
+			st := s
+			if len(got) < len(wantSteps) {
+				st = wantSteps[len(got)]
+			}
+			f := failAt(st, "internal", r.Class+": "+firstErrLine(r.Err))
+			f.Err = r.Class
+			return f
+		}
+		if isStaticError(r.Err) {
+			f := fail("render", r.Class+": "+r.Err.Error())
+			f.Harness = true
+			return f
+		}
+		for i := 0; i < len(want) && i < len(got); i++ {
+			g := got[i]
+			if wantSet[i] {
+				g = sortedCSV(g)
+			}
+			if want[i] != g {
+				kind := wantKind[i]
+				return failAt(wantSteps[i], kind, fmt.Sprintf("after %s %s (log %d): model=%q runtime=%q", wantSteps[i].Op, form(wantSteps[i]), i, want[i], g))
+			}
+		}
+		wantErr := s.Op != "commit"
+		if (r.Err != nil) != wantErr {
+			if r.Err != nil {
+				st := s
+				if len(got) < len(wantSteps) {
+					st = wantSteps[len(got)]
+				}
+				return failAt(st, "outcome", fmt.Sprintf("model predicts success, runtime failed with %s after %d of %d logs: %v", r.Class, len(got), len(want), firstErrLine(r.Err)))
+			}
+			return fail("outcome", fmt.Sprintf("model predicts failure %q at %s, runtime succeeded", s.resString(), s.Op))
+		}
+		if len(got) != len(want) {
+			st := s
+			if len(got) < len(wantSteps) {
+				st = wantSteps[len(got)]
+			}
+			return failAt(st, "outcome", fmt.Sprintf("model predicts %d logs before the end of the transaction, runtime produced %d (%s: %v)", len(want), len(got), r.Class, firstErrLine(r.Err)))
+		}
+		if wantErr {
+			ok := false
+			switch {
+			case s.Op == "abort":
+				ok = r.Class == "user:PanicError"
+			case s.resString() == "err:dup":
+				ok = r.Class == "user:DuplicateAttachmentError"
+			}
+			if !ok {
+				return fail("errkind", fmt.Sprintf("model predicts %s %s, runtime failed with %s: %v", s.Op, s.resString(), r.Class, firstErrLine(r.Err)))
+			}
+			if len(r.Writes) != 0 {
+				return fail("write-on-failure", fmt.Sprintf("failed transaction wrote %d registers", len(r.Writes)))
+			}
+			continue
+		}
+		// events
+		var wantEv, gotEv []string
+		for _, c := range cur {
+			for _, e := range c.Ev {
+				wantEv = append(wantEv, evKey(e.Y, e.Tag, e.B))
+			}
+		}
+		for _, e := range r.Events {
+			if !strings.HasSuffix(e.Type, ".ResourceDestroyed") {
+				continue
+			}
+			f := map[string]string{}
+			for i, n := range e.Fields {
+				f[n] = e.Values[i]
+			}
+			switch {
+			case strings.HasSuffix(e.Type, "T.R.ResourceDestroyed"):
+				gotEv = append(gotEv, "R:"+f["id"])
+			case strings.HasSuffix(e.Type, "T.A.ResourceDestroyed"):
+				gotEv = append(gotEv, "A:"+f["tag"]+":"+f["bid"])
+			case strings.HasSuffix(e.Type, "T.B.ResourceDestroyed"):
+				gotEv = append(gotEv, "B:"+f["tag"]+":"+f["bid"])
+			default:
+				gotEv = append(gotEv, e.Type)
+			}
+		}
+		sort.Strings(wantEv)
+		sort.Strings(gotEv)
+		if strings.Join(wantEv, ",") != strings.Join(gotEv, ",") {
+			return fail("events", fmt.Sprintf("destroy events of the transaction (type:tag:base / R:id): model=%v runtime=%v", wantEv, gotEv))
+		}
+		pr := w.Script(proj, useVM)
+		if pr.Err != nil {
+			if host.IsInternal(pr.Class) {
+				f := fail("internal", "projection script: "+pr.Class+": "+firstErrLine(pr.Err))
+				f.Err = pr.Class
+				return f
+			}
+			return fail("projection-script", "projection script failed: "+firstErrLine(pr.Err))
+		}
+		var gotSt []string
+		for _, v := range pr.Value.(cadence.Array).Values {
+			gotSt = append(gotSt, string(v.(cadence.String)))
+		}
+		if strings.Join(gotSt, "|") != strings.Join(s.Cst, "|") {
+			return fail("committed-state", fmt.Sprintf("storage re-read by a fresh script: model=%v runtime=%v", s.Cst, gotSt))
+		}
+	}
+	return nil
+}
+
+func attMain(args []string) {
+	if len(args) < 2 {
+		util.Die("usage: res att behaviours.ndjson results.ndjson [engines]")
+	}
+	engines := []bool{false, true}
+	if len(args) > 2 {
+		engines = nil
+		for _, e := range strings.Split(args[2], ",") {
+			engines = append(engines, e == "vm")
+		}
+	}
+	var behs []*ABeh
+	err := util.ReadLines(args[0], func(line []byte) error {
+		var b ABeh
+		if err := json.Unmarshal(line, &b); err != nil {
+			return err
+		}
+		behs = append(behs, &b)
+		return nil
+	})
+	if err != nil {
+		util.Die("reading behaviours: %v", err)
+	}
+	out := util.NewOut(args[1])
+	defer out.Close()
+	var nfail, ntx, nsteps, ncommit int64
+	util.Parallel(len(behs), runtime.NumCPU(), func(i int) {
+		b := behs[i]
+		for _, vm := range engines {
+			f := func() (f *AFail) {
+				defer func() {
+					if r := recover(); r != nil {
+						f = &AFail{ID: b.ID, Kind: "driver-panic", Harness: true, Msg: fmt.Sprint(r), Beh: b}
+					}
+				}()
+				return replayAtt(b, vm)
+			}()
+			if f != nil {
+				atomic.AddInt64(&nfail, 1)
+				out.Write(f)
+			}
+		}
+		for _, s := range b.Steps {
+			if s.Op == "begin" {
+				atomic.AddInt64(&ntx, 1)
+			}
+			if s.Op == "commit" {
+				atomic.AddInt64(&ncommit, 1)
+			}
+		}
+		atomic.AddInt64(&nsteps, int64(len(b.Steps)))
+	})
+	out.Write(map[string]any{"summary": true, "behaviours": len(behs), "engines": len(engines),
+		"transactions": ntx, "commits": ncommit, "steps": nsteps, "failures": nfail})
+}
